@@ -413,8 +413,11 @@ def rule_limits(ck, repo, R):
     ck.decide('not bonds' in checks, R, 'limit:non-empty', None, 'pack no longer rejects empty molecules', file=f.file, line=f.lineno)
     ck.decide('max(bonds) > 4095' in checks, R, 'limit:atom-number', sorted(checks), 'pack no longer rejects atom numbers above 4095 (12-bit field)', file=f.file, line=f.lineno)
     ck.decide('any((len(x) > 15 for x in bonds.values()))' in checks, R, 'limit:neighbours', sorted(checks), 'pack no longer rejects more than 15 neighbours (4-bit field)', file=f.file, line=f.lineno)
-    guard = [n for n in ast.walk(f.node) if isinstance(n, ast.If) and src(n.test) == 'check']
-    ck.decide(len(guard) == 1 and all(any(c in ast.walk(guard[0]) for c in [v]) for v in checks.values()), R, 'limit:under-check-flag', None, 'limit tests are no longer under `if check:`', file=f.file, line=f.lineno)
+    from .astutil import reach_conditions as _rc, enclosing_map as _em
+    _pm = _em(f.node)
+    limit_ifs = [v for k, v in checks.items() if 'bonds' in k]
+    ck.decide(bool(limit_ifs) and all(any(isinstance(c, ast.Name) and c.id == 'check' for c in _rc(v, f.node, _pm)) for v in limit_ifs), R, 'limit:under-check-flag', None,
+              'limit tests are no longer reached only when `check` is set', file=f.file, line=f.lineno)
     rp = repo.func('chython.containers.reaction:ReactionContainer.pack')
     ck.decide('bytearray((1, len(self.reactants), len(self.reagents), len(self.products)))' in src(rp.node) and 'for m in self.molecules()' in src(rp.node), R, 'reaction:header', None,
               'reaction pack header is no longer (1, reactants, reagents, products) followed by molecules() order', file=rp.file, line=rp.lineno)
